@@ -83,7 +83,10 @@ C_Step ==
 
 C_Break ==
   /\ ~drift /\ IsEv("Break") /\ ~ended
-  /\ Ev.c \in Conns /\ Break(Ev.c) /\ UNCHANGED schedV
+  \* dropping a connection that is not in a bucket (any more) does not concern the pool
+  /\ IF Ev.c \in Idle THEN Break(Ev.c)
+     ELSE UNCHANGED <<cfg, now, poolV, connV, workV, sweepV, ppc, async, breaks, ended, obs>>
+  /\ UNCHANGED schedV
   /\ l' = l + 1 /\ UNCHANGED <<drift, tno, k>>
   /\ Reached(l + 1)
 
@@ -95,7 +98,9 @@ C_Clock ==
 
 C_End ==
   /\ ~drift /\ IsEv("End") /\ ~ended
-  /\ ~ProcEnabled
+  \* (a worker that is idle has simply reached the end of its script)
+  /\ \A w \in Workers : wpc[w] = "idle" \/ ~EnWorker(w)
+  /\ ~EnSweeper /\ ~EnCloser /\ async = {}
   /\ (ToSet(Ev.hung) = {}) = (Hung = {})
   /\ ended' = TRUE
   /\ obs' = ObsApply(obs, Ev)
